@@ -1588,7 +1588,7 @@ class Interp:
         return App(name, (l, r))
 
     def identity(self, l, r):
-        concrete = (Const, NodeV, ListV, DictV, ObjV, FuncV, ClassV)
+        concrete = (Const, NodeV, ListV, DictV, ObjV, FuncV, ClassV, ExcV)  # (an exception object bound by `except ... as e`)
         if isinstance(l, Sym) and isinstance(r, Sym) and l.tag and r.tag and l.tag[0] == "g" and r.tag[0] == "g":
             ln, rn = l.tag[1], r.tag[1]
             if "." in ln and "." in rn and ln.rsplit(".", 1)[0] == rn.rsplit(".", 1)[0] and ln.rsplit(".", 1)[0][:1].isupper():
